@@ -62,10 +62,10 @@ def shards(tier):
 
 
 def floors(tier):
-    scale = 1 if tier == 'quick' else 20
+    scale = 1 if tier == 'quick' else 10
     out = {'evaluations': 6000 * scale, 'conforming_checked': 400 * scale, 'mutants_checked': 2500 * scale,
            'schema_checked': 500 * scale, 'schema_fully_named': 250 * scale, 'built_fluent': 3000 * scale,
-           'built_raw': 3000 * scale, 'built_split': 20 * scale, 'directed_checked': 40}
+           'built_raw': 3000 * scale, 'built_split': 15 * scale, 'directed_checked': 40}
     for rule in RULES:
         out[f'rule_{rule}'] = (40 if rule != 'set-schema' else 15) * (1 if tier == 'quick' else 10)
     return out
@@ -278,7 +278,7 @@ def directed(g):
         # ---- one case per known finding
         ('known-schema-unnamed', g.query(A, [g.arith('+', ax, one)]), None),
         ('known-schema-duplicate-names', g.query(g.join(A, B, 'inner', g.cmp('==', ax, bx)), [ax, bx]), None),
-        ('known-pythonic-selected', g.query(A, [g.cmp('==', ax, one)]), None),
+        ('fluent-equality-selected', g.query(A, [g.cmp('==', ax, one), g.cmp('<', ay, one)]), None),
         ('known-window-hides-foreign', g.query(A, [g.alias(g.window('count', bx, [bx]), 'w')]), 'scope-select'),
         ('known-grouping-collision', g.query(A, [g.alias(g.arith('+', ax, g.lit(-1)), 'k'), g.alias(g.agg('count', ay), 'n')],
                                              groupby=[g.arith('+', ax, g.lit(-2))]), 'non-aggregate-outside-grouping'),
@@ -318,7 +318,7 @@ def run(ctx):
     index = 0
     per_rule = ctx.pick(1, None)
     stride = ctx.pick(3, 1)  # quick: every third skeleton
-    for ast in g.enumerate_asts(depth, rng, leaves=ctx.pick(1, 2)):
+    for ast in g.enumerate_asts(depth, rng, leaves=1):
         index += 1
         if not ctx.mine(index // stride) or index % stride:
             continue
@@ -334,7 +334,7 @@ def run(ctx):
             if local.random() < 0.0005:
                 ctx.sample({'mutant': mutant, 'rule': rule, 'position': list(position)})
     # -------- seeded random deeper statements
-    for i in range(ctx.pick(240, 6000)):
+    for i in range(ctx.pick(240, 3000)):
         if not ctx.mine(i):
             continue
         local = ctx.rng('random', i)
